@@ -55,9 +55,9 @@ CHECKS = {
     text="Translation loop of run() proved (small ghost tables); the entry points themselves are a bounded stand-in: exact-domain set (all labelled graphs n<=5/6, all weightings n<=4, families, seeded random) x k in {1,2,3,5,n} x {double,int}. Found and repaired: spanner descriptors leaked to the caller, weight omitted.",
     note="Templates outside CBMC's reach. Use-after-free aspect observed under ASan in C07."),
  "C06": dict(
-    engine="E3", category="exploration", design_ref="DESIGN.md 4/C06, 3 (K18)",
-    technique="bounded enforcement of ret <= (2k-1)*OPT, k=1 exact, k=0 rejected, against the brute-force optimum; no deductive content",
-    text="Bounded stand-in only over the exact-domain set x k in {0,1,2,3,5,n}.",
+    engine="E1+E3", category="other", design_ref="DESIGN.md 4/C06, 3 (K18)",
+    technique="CBMC contracts on run()'s parameter check (k=0 rejected before any emission, all k) and on the spanner loop's hop bound 2k-1 + bounded enforcement of ret <= (2k-1)*OPT, k=1 exact, against the brute-force optimum",
+    text="k=0 rejection and the hop bound are proved; the (2k-1) guarantee is a global-optimum statement and stays a bounded stand-in over the exact-domain set x k in {0,1,2,3,5,n}.",
     note="OPT from brute force (cross-checked with a Horton oracle); sequential approximate entry points (the TBB ones are C03)."),
  "C11": dict(
     engine="E1+E3", category="other", design_ref="DESIGN.md 4/C11, 3 (K27)",
